@@ -105,6 +105,19 @@ def run(ck):
             tag = ",".join(deny) or "none"
             _, results, errs = run_driver_parallel(again, deny=deny, tag="c01r" + tag, shards=1)
             res[tag].update(results)
+        # processes that have nothing to do with this check may be renaming things as well (the rename seqlock is global):
+        # where the openat2 backend and the raw kernel call still differ by a busy-machine answer, ask up to three more times
+        for _round in range(3):
+            still = []
+            for case in meta.values():
+                a, b_ = res["none"].get(case["lib"]), res["none"].get(case["raw"])
+                c_, d_ = res["none"].get(case["open"]), res["none"].get(case["rawopen"])
+                if (transient(a) != transient(b_)) or (transient(c_) != transient(d_)):
+                    still += [byid_jobs[case[k]] for k in ("lib", "raw", "readlink", "open", "rawopen")]
+            if not still:
+                break
+            _, results, errs = run_driver_parallel(still, deny=(), tag="c01rr", shards=1)
+            res["none"].update(results)
     stats = {"cases": 0, "kernel_vs_model": 0, "lib_vs_kernel": 0, "emu_vs_model": 0, "known_FH": 0, "outcomes": {}, "readlink": 0, "open": 0,
              "asked_again_alone": len(again)}
     nontrivial = set()
